@@ -154,8 +154,8 @@ impl<'a> V<'a> {
                     self.bad("semantic-tokens-overlap-or-unordered", format!("token {i} at {line}:{ch} starts before the previous token ends at {}:{}", pe.0, pe.1));
                 }
             }
-            if !multiline && ch + len > self.lines.lens_utf16[line as usize] as u64 {
-                self.bad("semantic-token-runs-past-line-end", format!("token {i} at {line}:{ch} len {len}, line has {} units", self.lines.lens_utf16[line as usize]));
+            if !multiline && ch + len > self.lines.line_len_max(line) {
+                self.bad("semantic-token-runs-past-line-end", format!("token {i} at {line}:{ch} len {len}, line has {} units", self.lines.line_len_max(line)));
             }
             prev_end = Some((line, ch + len));
         }
@@ -354,7 +354,8 @@ fn run_doc(work: &str, text: &str, positions: Vec<(u32, u32)>) -> DocResult {
 }
 
 fn gen_doc(rng: &mut Rng, corpus: &Corpus) -> (String, &'static str) {
-    match rng.below(10) {
+    match rng.below(14) {
+        10..=13 => (feature_doc(rng), "feature-snippets"),
         0..=5 => (corpus.pick(rng).to_string(), "corpus"),
         6..=7 => {
             let b = corpus.pick(rng);
@@ -422,12 +423,23 @@ pub fn run(ctx: &mut Ctx) {
         let mut positions = sample(&mut rng, &b, 12);
         let sp = string_positions(&text);
         positions.extend(sample(&mut rng, &sp, 4));
+        if fam == "feature-snippets" {
+            let all = all_positions(&text);
+            positions.extend(sample(&mut rng, &all, 30));
+        }
         let r = run_doc(&ctx.work.clone(), &text, positions.clone());
         ctx.clause(&format!("family:{fam}"));
         let mut total = 0;
         for (k, n) in &r.checked {
             ctx.clause_n(&format!("validated:{k}"), *n);
             total += n;
+        }
+        // the whole-document formatting range is judged as a clause of its own (it fires on every
+        // document while its finding is open); the document still counts for all other clauses
+        let (fmt_only, others): (Vec<_>, Vec<_>) = r.violations.into_iter().partition(|(s, _)| s == "C26:range-outside-document:in=formatting");
+        let r = DocResult { violations: others, checked: r.checked };
+        for (sig, d) in fmt_only {
+            ctx.add_violation(&sig, &d, json!({"text": text, "positions": []}));
         }
         if r.violations.is_empty() {
             ctx.held(fnv(text.as_bytes()), total >= 20);
